@@ -38,10 +38,23 @@ def expected_arrays(sc, entries):
         out[k] = np.array([e[ch][k] for ch in IR], dtype=float)
     out["b"] = np.array([[e[ch][k] for k in ("b0", "b1", "b2")] for ch in IR], dtype=float)
     out["d"] = np.array([[e.get("thermometer_%d" % t, {}).get("d%d" % d, 0.0) for t in range(5)] for d in range(5)], dtype=float)
-    dl = datetime.datetime.fromisoformat(e["date_of_launch"].replace("Z", "+00:00")).astimezone(datetime.timezone.utc)
-    out["date_of_launch"] = dl.replace(tzinfo=None)
+    out["date_of_launch"] = launch_utc(e["date_of_launch"])
     out["spacecraft"] = sc
     return out
+
+
+def launch_utc(text):
+    """ISO 8601 instant -> naive UTC datetime, parsed here (not with the library call the package uses)."""
+    import re
+    m = re.fullmatch(r"(\d{4})-(\d\d)-(\d\d)T(\d\d):(\d\d):(\d\d)(?:\.(\d{1,6}))?(Z|[+-]\d\d:\d\d)", text)
+    y, mo, d, h, mi, sec = (int(m.group(i)) for i in range(1, 7))
+    us = int((m.group(7) or "0").ljust(6, "0"))
+    t = datetime.datetime(y, mo, d, h, mi, sec, us)
+    z = m.group(8)
+    if z != "Z":
+        off = datetime.timedelta(hours=int(z[1:3]), minutes=int(z[4:6]))
+        t = t - off if z[0] == "+" else t + off
+    return t
 
 
 def perturb(rng, key, val):
@@ -53,7 +66,8 @@ def perturb(rng, key, val):
             out = {k: out[k] for k in keep}
         return out
     if key == "date_of_launch":
-        return "1999-0%d-1%dT00:00:00.000000Z" % (rng.randrange(1, 9), rng.randrange(0, 9))
+        return "1999-0%d-1%dT0%d:27:36.000000%s" % (rng.randrange(1, 9), rng.randrange(0, 9), rng.randrange(0, 9),
+                                                      rng.choice(["Z", "Z", "+00:00", "+05:30", "-08:00", "+01:00"]))
     return val
 
 
@@ -76,6 +90,9 @@ def run(res, tier, seed):
         for sc in names:
             mod[sc]["channel_1"]["dark_count"] += 1.25
             mod[sc]["thermometer_2"]["d1"] *= 1.01
+        for sc in names[::3]:      # launch dates written with a UTC offset
+            if mod[sc]["date_of_launch"].endswith("Z"):
+                mod[sc]["date_of_launch"] = mod[sc]["date_of_launch"][:-1] + "+05:30"
         mod_path = os.path.join(d, "modified.json")
         json.dump(mod, open(mod_path, "w"))
         bad_path = os.path.join(d, "malformed.json")
